@@ -470,8 +470,10 @@ def main(argv=None):
                                           "other_hits": len(R.oracle_hits) - 1})
             lines.append(f"VIOLATION property={prop} replay={p}")
             status = 1
-        elif proof_problems or n_dis:
-            # broken proof / correspondence: extended failing-input search on the implementation
+        elif proof_problems or n_dis or R.errors:
+            # broken proof / correspondence: extended failing-input search on the implementation.  A case the harness could
+            # not drive (the implementation raised where it does not on the unchanged tree, e.g. a constructor that now
+            # refuses a value) is a broken correspondence too: the run must not end without a verdict
             log(f"[{prop}] proof/correspondence broken; running extended search")
             S = Runner(mod, "thorough", seed)
             budget = 120 if tier == "quick" else 600
@@ -488,7 +490,9 @@ def main(argv=None):
                     break
             payload = {"property": prop, "proof_problems": proof_problems,
                        "disagreements": [d for d in R.disagreements if d][:10],
-                       "n_disagreements": n_dis}
+                       "n_disagreements": n_dis,
+                       "harness_errors": [{"case": c, "error": r.get("out"), "detail": r.get("detail", "")[-400:]} for c, r in R.errors[:3]],
+                       "n_harness_errors": len(R.errors)}
             if S.oracle_hits:
                 case, out, msg = S.oracle_hits[0]
                 case = shrink(mod, case, msg)
